@@ -93,6 +93,12 @@ pub fn check_context(ctx: &Context) -> Result<(), String> {
                 }
                 Err(e) => return Err(format!("node ({},{}) ({}) has no valid type: {}", gi, ni, n.get_operation(), es(e))),
             }
+            // the stored value of a constant has the layout of its declared type
+            if let Operation::Constant(t, v) = n.get_operation() {
+                if let Err(e) = layout_matches(&t, &v) {
+                    return Err(format!("node ({},{}) is a constant whose value does not fit its type {}: {}", gi, ni, t, e));
+                }
+            }
             // names resolve back
             match n.get_name() {
                 Ok(Some(name)) => match g.retrieve_node(&name) {
@@ -124,4 +130,30 @@ pub fn check_context(ctx: &Context) -> Result<(), String> {
         }
     }
     Ok(())
+}
+
+/// Layout of a value against a type, written independently of `Value::check_type`: byte lengths of leaves and entry
+/// counts of tuples, named tuples and vectors (padding bits are not looked at).
+pub fn layout_matches(t: &ciphercore_base::data_types::Type, v: &ciphercore_base::data_values::Value) -> Result<(), String> {
+    use crate::vals::{as_bytes, as_vec, children_types, is_leaf_type, num_elems};
+    if is_leaf_type(t) {
+        let b = as_bytes(v).ok_or("a leaf type with a container value")?;
+        let st = t.get_scalar_type();
+        let n = num_elems(t);
+        let need = if st == ciphercore_base::data_types::BIT { (n + 7) / 8 } else { n * (crate::vals::st_bits(st) as usize / 8) };
+        if b.len() != need {
+            return Err(format!("{} bytes stored, {} needed", b.len(), need));
+        }
+        Ok(())
+    } else {
+        let vs = as_vec(v).ok_or("a container type with a byte value")?;
+        let cts = children_types(t);
+        if vs.len() != cts.len() {
+            return Err(format!("{} entries stored, the type declares {}", vs.len(), cts.len()));
+        }
+        for (ct, cv) in cts.iter().zip(vs.iter()) {
+            layout_matches(ct, cv)?;
+        }
+        Ok(())
+    }
 }
